@@ -43,9 +43,11 @@ type Cell struct {
 	Cfg       bool   `json:"ssh_config"`  // argv cells: an ssh config file is configured
 	Rep       int    `json:"rep"`
 	ReadSize  int    `json:"read_size"`
-	Host      string `json:"host,omitempty"`            // "" = 127.0.0.1; "localhost" = a name (resolves via /etc/hosts)
-	PortMode  string `json:"port_mode,omitempty"`       // "" = the server's port; explicit22 = WithPort(22); default22 = no WithPort
-	CfgKind   string `json:"ssh_config_kind,omitempty"` // ssh config file with hostile directives (see setup); overrides ssh_config
+	Host      string `json:"host,omitempty"`             // "" = 127.0.0.1; "localhost" = a name (resolves via /etc/hosts)
+	PortMode  string `json:"port_mode,omitempty"`        // "" = the server's port; explicit22 = WithPort(22); default22 = no WithPort
+	HomeKH    string `json:"home_known_hosts,omitempty"` // $HOME/.ssh/known_hosts of the worker while the cell runs: has | other | nofile (never the real home)
+	NoticeMs  int    `json:"notice_pause_ms,omitempty"`  // the device prints post-login notice lines containing "password" and ending in ':' and pauses this long before its prompt
+	CfgKind   string `json:"ssh_config_kind,omitempty"`  // ssh config file with hostile directives (see setup); overrides ssh_config
 	// seq cells: states of ONE known-hosts path at consecutive strict opens in one process
 	Steps []string `json:"steps,omitempty"`
 	Reuse bool     `json:"reuse_transport,omitempty"` // seq: one Transport object for all opens (else a fresh one per open); retry: Transport.Close between the opens
@@ -66,7 +68,8 @@ var w struct {
 	users [2]userRec
 	kh    [3]map[string]string // per server: known-hosts state -> path
 	cfg   string
-	cfgs  map[string]string // hostile ssh config files by kind
+	cfgs  map[string]string    // hostile ssh config files by kind
+	homes [3]map[string]string // per server: state of $HOME/.ssh/known_hosts -> home directory
 	seq   int
 	sshAt string
 }
@@ -176,6 +179,29 @@ func setup() error {
 				}
 				w.kh[i][st] = p
 			}
+		}
+	}
+	// temp HOME directories whose .ssh/known_hosts holds the server's key / another key / does not exist
+	for i := 0; i < 2; i++ {
+		w.homes[i] = map[string]string{}
+		for _, st := range []string{"has", "other", "nofile"} {
+			h := filepath.Join(w.dir, fmt.Sprintf("home_%d_%s", i, st))
+			if err := os.MkdirAll(filepath.Join(h, ".ssh"), 0o700); err != nil {
+				return err
+			}
+			var body string
+			switch st {
+			case "has":
+				body = sshsim.KnownHostsLine(w.srv[i].Port(), w.srv[i].HostKey())
+			case "other":
+				body = sshsim.KnownHostsLine(w.srv[i].Port(), sshsim.FreshPublicKey())
+			}
+			if st != "nofile" {
+				if err := os.WriteFile(filepath.Join(h, ".ssh", "known_hosts"), []byte(body), 0o600); err != nil {
+					return err
+				}
+			}
+			w.homes[i][st] = h
 		}
 	}
 	// ssh config files with hostile but realistic directives (the driver's options must win)
@@ -362,6 +388,11 @@ func teardown() {
 
 const prompt = "c14dev#"
 
+// noticeText: post-login lines that contain the word "password" and end in a colon, but are not a
+// password prompt (no "password:" at the end of a line).
+const noticeText = "welcome to the c14 device\r\nNOTICE: password rotation is enforced for the following accounts:\r\n  ops, backup\r\n" +
+	"Your password policy was updated; details are available at: \r\nreminder - password changes need a ticket, see below:\r\n"
+
 func cliDevice(token string) *devsim.CLI {
 	return &devsim.CLI{
 		Prompts: map[string]string{"exec": prompt}, Mode: "exec", NL: "\r\n",
@@ -396,6 +427,8 @@ type observed struct {
 	Argv      []string       `json:"argv,omitempty"`
 	TypedPw   string         `json:"typed_password,omitempty"`
 	SSHBinary string         `json:"ssh_binary,omitempty"`
+	// SessionStdin is every byte that arrived on the stdin of the established session(s)
+	SessionStdin string `json:"session_stdin,omitempty"`
 	// ResolvedHost is the hostname `ssh -G` reports for the argument list (evidence only, no verdict)
 	ResolvedHost string `json:"resolved_host,omitempty"`
 }
@@ -467,6 +500,12 @@ func (c Cell) label() string {
 	}
 	if c.CfgKind != "" {
 		x += "/sshconfig=" + c.CfgKind
+	}
+	if c.HomeKH != "" {
+		x += "/home-known-hosts=" + c.HomeKH
+	}
+	if c.NoticeMs > 0 {
+		x += fmt.Sprintf("/notice+%dms", c.NoticeMs)
 	}
 	return fmt.Sprintf("%s/%s/kh=%s/auth=%s%s", c.Transport, s, c.KH, c.Auth, x)
 }
@@ -629,12 +668,28 @@ func runReal(c Cell) mon.Result {
 		s.SetAccount(u.name, acct)
 		c0[i] = s.ConnCount()
 		s.SetHandler(func(ss *sshsim.Session) {
-			sv := sshsim.Serve(ss, cliDevice(token), devsim.Seg{Mode: "mix", Size: 100, Seed: int64(w.seq)})
+			dev := cliDevice(token)
+			if c.NoticeMs > 0 { // post-login notices, then a pause, then the prompt
+				dev.NoInitialPrompt = true
+				dev.Banner = []devsim.Token{devsim.T(noticeText)}
+			}
+			sv := sshsim.Serve(ss, dev, devsim.Seg{Mode: "mix", Size: 100, Seed: int64(w.seq)})
 			smu.Lock()
 			served = append(served, sv)
 			smu.Unlock()
+			if c.NoticeMs > 0 {
+				go func() {
+					time.Sleep(time.Duration(c.NoticeMs) * time.Millisecond)
+					sv.Conn.Do(func() { sv.Conn.Emit([]byte(prompt)) })
+				}()
+			}
 			sv.Wait(60 * time.Second)
 		})
+	}
+	if c.HomeKH != "" { // cases of a worker run one at a time: the process environment is ours
+		old := os.Getenv("HOME")
+		os.Setenv("HOME", w.homes[c.Srv][c.HomeKH])
+		defer os.Setenv("HOME", old)
 	}
 	ob := &observed{SSHBinary: w.sshAt}
 	t0 := time.Now()
@@ -691,13 +746,35 @@ func runReal(c Cell) mon.Result {
 			}
 		}
 	}
+	// everything that arrived on the stdin of the established session(s)
+	var stdin []byte
 	smu.Lock()
+	nServed := len(served)
 	for _, sv := range served {
+		for _, e := range sv.Conn.Log() {
+			if e.Kind == "write" {
+				stdin = append(stdin, e.Data...)
+			}
+		}
 		sv.Stop()
 	}
 	smu.Unlock()
+	ob.SessionStdin = string(stdin)
+	if strings.Contains(ob.SessionStdin, u.pw) {
+		return viol(c, "c14/"+c.Transport+"/password-typed-into-session", ob,
+			"the configured password arrived on the stdin of the established session (outside the authentication exchange): session stdin %q", ob.SessionStdin)
+	}
 
 	obs := map[string]int64{"cells": 1}
+	if nServed > 0 {
+		obs["session_stdin_checked_for_the_password"]++
+	}
+	if c.NoticeMs > 0 {
+		obs["post_login_notice_cells"]++
+	}
+	if c.HomeKH != "" {
+		obs["home_known_hosts_cells"]++
+	}
 	tags := []string{"transport=" + c.Transport, "known_hosts=" + c.KH, "auth=" + c.Auth, fmt.Sprintf("strict=%v", c.Strict),
 		fmt.Sprintf("readsize=%d", c.ReadSize), "user=" + u.name, fmt.Sprintf("server=%d", c.Srv)}
 	var authOK, hsOK, conns int
@@ -1085,6 +1162,31 @@ func gen(tier string, seed int64) []mon.Case {
 			}
 		}
 	}
+	// $HOME/.ssh/known_hosts must make no difference when no known-hosts file is configured; post-login
+	// notice lines that mention "password" and end in ':' followed by a pause before the prompt
+	for rep := 0; rep < reps; rep++ {
+		k := 0
+		addH := func(c Cell) {
+			c.Kind, c.Rep, c.ReadSize, c.User = "real", rep, 8192, (k+rep)%2
+			cs = append(cs, mon.MkCase(fmt.Sprintf("c14/r%d/h%02d-%s.srv%d", rep, k, strings.ReplaceAll(c.label(), "/", "."), c.Srv), c))
+			k++
+		}
+		for _, tr := range []string{"standard", "system"} {
+			for _, home := range []string{"has", "other", "nofile"} {
+				for srv := 0; srv < 2; srv++ {
+					for _, auth := range []string{"password", "key"} {
+						addH(Cell{Transport: tr, Strict: true, KH: "none", Auth: auth, Srv: srv, HomeKH: home})
+					}
+				}
+			}
+			addH(Cell{Transport: tr, Strict: false, KH: "none", Auth: "password", Srv: 0, HomeKH: "other"}) // control: checking off
+			for i, auth := range []string{"password", "both", "key"} {
+				for srv := 0; srv < 2; srv++ {
+					addH(Cell{Transport: tr, Strict: true, KH: "has", Auth: auth, Srv: srv, NoticeMs: []int{50, 150, 300}[(i+srv+rep)%3]})
+				}
+			}
+		}
+	}
 	// retry on ONE object after an Open that failed inside Transport.Open
 	for rep := 0; rep < reps; rep++ {
 		k := 0
@@ -1142,7 +1244,9 @@ func init() {
 			"unrelated CA or empty file (must fail), only the certified key as a plain entry (outcome not prescribed, recorded). Plus, per repetition: 224 stand-in cells whose argument list is resolved by the real client (`ssh -G`) under ssh config files with hostile directives " +
 			"(Port/User/HostName/IdentityFile/StrictHostKeyChecking/UserKnownHostsFile under Host *, Host <host>, Match) x port {server port, explicit 22, default 22}: every field the driver " +
 			"configured must survive; 16 port-22 decoy cells (config file names a port of one of our servers: nothing may connect there); 64 cells with the host given as the NAME localhost x known-hosts " +
-			"entry sets {name: right|wrong|none|hashed} x {ip: right|wrong|none|hashed} on both transports (connect iff the entry for the configured NAME matches). Plus 66 retry sequences per repetition on ONE driver object: Open #1 under a configuration that must fail inside Transport.Open (strict + no / missing / half-written known-hosts " +
+			"entry sets {name: right|wrong|none|hashed} x {ip: right|wrong|none|hashed} on both transports (connect iff the entry for the configured NAME matches). Plus 26 cells per repetition with no known-hosts file configured while $HOME/.ssh/known_hosts (temp HOME) holds the server key / another key / does not exist (must fail, " +
+			"standard with the bad-option error), and 12 cells whose device prints post-login notice lines containing the word password and ending in ':' and pauses 50-300 ms before its prompt; in every connecting " +
+			"cell the bytes arriving on the session's stdin must not contain the password. Plus 66 retry sequences per repetition on ONE driver object: Open #1 under a configuration that must fail inside Transport.Open (strict + no / missing / half-written known-hosts " +
 			"file; missing / half-written / unauthorised key file), optional Transport.Close, optional repair, Open #2 judged as a fresh object would be under the files at that moment (server accepts key and " +
 			"password, so a silent fallback to the password is visible). Plus 32 sequences per repetition in which ONE known-hosts path changes its contents between three consecutive strict opens in one process " +
 			"(has>other>has, has>empty>has, empty>has>empty, other>has>other; both transports; fresh Transport object per open and one re-used object; transport level, key auth): " +
